@@ -470,50 +470,6 @@ structure FileOk (P : Params) (deflate : Nat → Bytes → Bytes) (f : ElfFile) 
 def NoReloc (secs : List Sec) (relocate : Bool) (name : Bytes) : Prop :=
   relocate = false ∨ findRelocations secs name = none
 
-theorem readDwarfSection_stored {P : Params} {deflate : Nat → Bytes → Bytes} {f : ElfFile} (hf : FileOk P deflate f)
-    (secs : List Sec) (sec : Sec) (relocate : Bool) (hnr : NoReloc secs relocate sec.name)
-    (e : Enc) (payload : Bytes) (addr off : Nat)
-    (hst : Stores deflate f.data f.cls f.le sec e payload addr off) :
-    readDwarfSection P f secs sec relocate =
-      .ok (match e with
-           | .zdebug lvl => ⟨zdebugBody payload.length (deflate lvl payload), sec.name, off,
-                             (zdebugBody payload.length (deflate lvl payload)).length, addr⟩
-           | _ => ⟨payload, sec.name, off, payload.length, addr⟩) := by
-  obtain ⟨ty, rest, flags, hp, hok⟩ := hst
-  cases e with
-  | plain =>
-    have hi := sectionInfo_plain P.env f.S hp hok
-    have hd := sectionData_plain P.X f.S hp
-    simp only [Enc.body] at hi hd
-    simp only [readDwarfSection, hf.hphantom, hi, hd, liftR, bind, Except.bind, hp.hoff, hp.haddr]
-    simp [pure, Except.pure]
-    intro hrt
-    rcases hnr with h | h
-    · rw [h] at hrt; cases hrt
-    · simp [h]
-  | gabi lvl align =>
-    obtain ⟨hfl, hs, ha, hb⟩ := hok
-    have hi := sectionInfo_gabi P.env f.S hf.hchdr hf.hcls hp hfl hs ha hf.henv
-    have hd := sectionData_gabi P.X f.S hf.hchdr hf.hcls hp
-    rw [gabiStep_ok hf.hzlib lvl payload hb] at hd
-    simp only [readDwarfSection, hf.hphantom, hi, hd, liftR, bind, Except.bind, hp.hoff, hp.haddr]
-    simp [pure, Except.pure]
-    intro hrt
-    rcases hnr with h | h
-    · rw [h] at hrt; cases hrt
-    · simp [h]
-  | zdebug lvl =>
-    obtain ⟨hfl, hs, hne⟩ := hok
-    have hi := sectionInfo_plain P.env f.S hp hfl
-    have hd := sectionData_plain P.X f.S hp
-    simp only [Enc.body] at hi hd
-    simp only [readDwarfSection, hf.hphantom, hi, hd, liftR, bind, Except.bind, hp.hoff, hp.haddr]
-    simp [pure, Except.pure]
-    intro hrt
-    rcases hnr with h | h
-    · rw [h] at hrt; cases hrt
-    · simp [h]
-
 /-- the descriptor the property prescribes for content stored in section `sec` at `off` -/
 def goodDescr (sec : Sec) (payload : Bytes) (addr off : Nat) : Descr :=
   ⟨payload, sec.name, off, payload.length, addr⟩
@@ -527,6 +483,85 @@ theorem decompress_stored {P : Params} {deflate : Nat → Bytes → Bytes} {f : 
         (by simp only [zdebugBody_length]; omega) hs, zdebugStep_ok hf.hzlib]
   simp [Except.map, goodDescr]
 
+/-- the last step of `_read_dwarf_section`: relocations applied to the (decompressed) descriptor -/
+def relocStep (P : Params) (f : ElfFile) (secs : List Sec) (sec : Sec) (relocate : Bool) (d : Descr) : V Descr :=
+  if relocate then
+    match findRelocations secs sec.name with
+    | none => .ok d
+    | some rsec =>
+      match applyRelocations P f rsec d.stream with
+      | .ok b => .ok { d with stream := b }
+      | .error e => .error (.py e)
+  else .ok d
+
+/-- `_read_dwarf_section` on a stored section, whatever its encoding: the logical content reaches
+    the relocation step (a legacy section is decompressed BEFORE it is relocated) -/
+theorem readDwarfSection_stored_eq {P : Params} {deflate : Nat → Bytes → Bytes} {f : ElfFile} (hf : FileOk P deflate f)
+    (secs : List Sec) (sec : Sec) (relocate : Bool)
+    (e : Enc) (payload : Bytes) (addr off : Nat)
+    (hst : Stores deflate f.data f.cls f.le sec e payload addr off) :
+    readDwarfSection P f secs sec relocate e.legacy = relocStep P f secs sec relocate (goodDescr sec payload addr off) := by
+  obtain ⟨ty, rest, flags, hp, hok⟩ := hst
+  have tail : ∀ d : Descr,
+      (if relocate = true then
+        match findRelocations secs sec.name with
+        | none => (pure d : V Descr)
+        | some rsec =>
+          if false = true then fail .elfParseError
+          else do
+            let relocated ← liftR (applyRelocations P f rsec d.stream)
+            pure { d with stream := relocated }
+       else pure d) = relocStep P f secs sec relocate d := by
+    intro d
+    unfold relocStep
+    cases relocate with
+    | false => rfl
+    | true =>
+      simp only [if_true]
+      cases findRelocations secs sec.name with
+      | none => rfl
+      | some rsec =>
+        simp only [Bool.false_eq_true, if_false, liftR, bind, Except.bind]
+        cases applyRelocations P f rsec d.stream <;> rfl
+  cases e with
+  | plain =>
+    have hi := sectionInfo_plain P.env f.S hp hok
+    have hd := sectionData_plain P.X f.S hp
+    simp only [Enc.body] at hi hd
+    simp only [readDwarfSection, hf.hphantom, hi, hd, liftR, bind, Except.bind, hp.hoff, hp.haddr, Enc.legacy,
+      Bool.false_eq_true, if_false, pure, Except.pure]
+    exact tail _
+  | gabi lvl align =>
+    obtain ⟨hfl, hs, ha, hb⟩ := hok
+    have hi := sectionInfo_gabi P.env f.S hf.hchdr hf.hcls hp hfl hs ha hf.henv
+    have hd := sectionData_gabi P.X f.S hf.hchdr hf.hcls hp
+    rw [gabiStep_ok hf.hzlib lvl payload hb] at hd
+    simp only [readDwarfSection, hf.hphantom, hi, hd, liftR, bind, Except.bind, hp.hoff, hp.haddr, Enc.legacy,
+      Bool.false_eq_true, if_false, pure, Except.pure]
+    exact tail _
+  | zdebug lvl =>
+    obtain ⟨hfl, hs, hne⟩ := hok
+    have hi := sectionInfo_plain P.env f.S hp hfl
+    have hd := sectionData_plain P.X f.S hp
+    simp only [Enc.body] at hi hd
+    simp only [readDwarfSection, hf.hphantom, hi, hd, liftR, bind, Except.bind, hp.hoff, hp.haddr, Enc.legacy,
+      Bool.false_eq_true, if_false, if_true, pure, Except.pure, decompress_stored hf sec lvl payload addr off hs hne]
+    exact tail _
+
+theorem relocStep_noReloc (P : Params) (f : ElfFile) (secs : List Sec) (sec : Sec) (relocate : Bool) (d : Descr)
+    (hnr : NoReloc secs relocate sec.name) : relocStep P f secs sec relocate d = .ok d := by
+  unfold relocStep
+  rcases hnr with h | h
+  · simp [h]
+  · simp only [h]; split <;> rfl
+
+theorem readDwarfSection_stored {P : Params} {deflate : Nat → Bytes → Bytes} {f : ElfFile} (hf : FileOk P deflate f)
+    (secs : List Sec) (sec : Sec) (relocate : Bool) (hnr : NoReloc secs relocate sec.name)
+    (e : Enc) (payload : Bytes) (addr off : Nat)
+    (hst : Stores deflate f.data f.cls f.le sec e payload addr off) :
+    readDwarfSection P f secs sec relocate e.legacy = .ok (goodDescr sec payload addr off) := by
+  rw [readDwarfSection_stored_eq hf secs sec relocate e payload addr off hst, relocStep_noReloc P f secs sec relocate _ hnr]
+
 theorem zName_startsWithDotZ (x : Bytes) : startsWithDotZ (zName x) = true := by
   simp [startsWithDotZ, zName, dotZ]
 
@@ -536,14 +571,11 @@ theorem readOne_eq (P : Params) (f : ElfFile) (secs : List Sec) (relocate zfile 
       match getSectionByName secs (secNameOf zfile kn) with
       | none => .ok (kn.1, none)
       | some sec =>
-        (readDwarfSection P f secs sec relocate).bind fun d =>
-          (if legacyOf zfile kn then decompressZdebug P.X d else .ok d).bind fun d => .ok (kn.1, some d) := by
+        (readDwarfSection P f secs sec relocate (legacyOf zfile kn)).bind fun d => .ok (kn.1, some d) := by
   unfold readOne
   cases getSectionByName secs (secNameOf zfile kn) with
   | none => rfl
-  | some sec =>
-    simp only [bind, pure, Except.pure]
-    cases legacyOf zfile kn <;> rfl
+  | some sec => rfl
 
 theorem readOne_absent (P : Params) (f : ElfFile) (secs : List Sec) (relocate zfile : Bool)
     (kn : String × Bytes × Bool) (h : getSectionByName secs (secNameOf zfile kn) = none) :
@@ -560,13 +592,7 @@ theorem readOne_stored {P : Params} {deflate : Nat → Bytes → Bytes} {f : Elf
     readOne P f secs relocate zfile kn = .ok (kn.1, some (goodDescr sec payload addr off)) := by
   have hr := readDwarfSection_stored hf secs sec relocate hnr e payload addr off hst
   rw [readOne_eq, hget]
-  simp only [hr, ← hleg, Except.bind]
-  cases e with
-  | plain => simp [Enc.legacy, Except.bind, goodDescr]
-  | gabi lvl align => simp [Enc.legacy, Except.bind, goodDescr]
-  | zdebug lvl =>
-    obtain ⟨ty, rest, flags, hp, hfl, hs, hne⟩ := hst
-    simp only [Enc.legacy, if_true, decompress_stored hf sec lvl payload addr off hs hne, Except.bind]
+  simp only [← hleg, hr, Except.bind]
 
 /-- the logical debug content of a file: per DWARFInfo keyword, the bytes and the load address -/
 abbrev Content := String → Option (Bytes × Nat)
